@@ -218,8 +218,10 @@ def rule_components(ctx):
 
 def run(ctx):
     rule_components(ctx)
+    from . import sei
+    sei.rule_reversible(ctx, 'R10.7')
     rule_janus_schemes(ctx)
     rule_janus_sequence(ctx)
     rule_janus_update_form(ctx)
     rule_symmetric_schemes(ctx)
-    ctx.not_decided.append('the bit-wise round trip itself (runtime); platforms whose float->int conversion is not truncation; SEI')
+    ctx.not_decided.append('the bit-wise round trip itself (runtime); platforms whose float->int conversion is not truncation; for SEI only the epicycle operator (R10.7), not the kick/operator sequence beyond R08.1')
